@@ -435,6 +435,113 @@ Definition spec_reverse (p : path) : path :=
 Definition ptrs_in_range (p : path) : bool :=
   (curr_inf (pm (pbase p)) <? num_inf (pbase p)) && (curr_hf (pm (pbase p)) <? num_hops (pbase p)).
 
+(** ------------------------------------------------------------------
+    Operation sequences on one [Raw] and one [Decoded] object.  The state of either is the
+    abstract path as the public API shows it (PathMeta, NumINF, NumHops, the fields returned by
+    GetInfoField/GetHopField resp. the slices).  A [Raw] also carries the four meta header bytes
+    of its buffer; the code never reads them before rewriting them (ToDecoded and IncPath write
+    PathMeta into the buffer first, DecodeFromBytes sets both), so they are not part of the state. *)
+Inductive op :=
+| OInc (via_base : bool)     (* Raw.IncPath, or IncPath of the embedded Base (no buffer write); Decoded: Base.IncPath *)
+| ORev                       (* Reverse *)
+| OSetPtr (ci ch : N)        (* PathMeta.CurrINF / CurrHF assigned directly *)
+| OConv                      (* Raw.ToDecoded resp. Decoded.ToRaw; the object itself is kept *)
+| OSetInfo (i : N) (x : info)   (* Raw.SetInfoField resp. InfoFields[i] = x *)
+| OSetHop (i : N) (x : hop).    (* Raw.SetHopField resp. HopFields[i] = x *)
+
+Definition set_nth {A} (l : list A) (i : nat) (x : A) : list A :=
+  firstn i l ++ match skipn i l with [] => [] | _ :: t => x :: t end.
+
+(** what is seen after a step: result class (0 ok, 1 error, 2 IncPath at end, 3 panic), the object,
+    the converted object for [OConv] *)
+Record sobs := { so_code : N; so_path : path; so_conv : option path }.
+Definition mk_sobs (c : N) (p : path) (v : option path) : sobs := {| so_code := c; so_path := p; so_conv := v |}.
+
+Definition with_base (p : path) (b : base) : path := {| pbase := b; infos := infos p; hops := hops p |}.
+
+Definition step (raw : bool) (p : path) (o : op) : sobs :=
+  match o with
+  | OInc _ =>
+    let r := inc_path (pbase p) in mk_sobs (inc_code (snd r)) (with_base p (fst r)) None
+  | ORev =>
+    match (if raw then reverse_raw p else reverse_decoded p) with
+    | Ok q => mk_sobs 0 q None
+    | Err => mk_sobs 1 p None
+    | Panic => mk_sobs 3 p None
+    end
+  | OSetPtr ci ch => mk_sobs 0 (with_base p (base_with_ptrs (pbase p) ci ch)) None
+  | OConv => mk_sobs (match to_raw p with Some _ => 0 | None => 1 end) p (to_raw p)
+  | OSetInfo i x =>
+    if i <? num_inf (pbase p)
+    then mk_sobs 0 {| pbase := pbase p; infos := set_nth (infos p) (N.to_nat i) x; hops := hops p |} None
+    else mk_sobs 1 p None
+  | OSetHop i x =>
+    if i <? num_hops (pbase p)
+    then mk_sobs 0 {| pbase := pbase p; infos := infos p; hops := set_nth (hops p) (N.to_nat i) x |} None
+    else mk_sobs 1 p None
+  end.
+
+Definition sobs_eqb (a b : sobs) : bool :=
+  (so_code a =? so_code b) && path_eqb (so_path a) (so_path b) && opath_eqb (so_conv a) (so_conv b).
+
+(** model and implementation step by step; the model continues from its own states *)
+Fixpoint seq_agree (r d : path) (ops : list op) (obs : list (sobs * sobs)) : bool :=
+  match ops, obs with
+  | [], [] => true
+  | o :: ops', (obr, obd) :: obs' =>
+    let mr := step true r o in
+    let md := step false d o in
+    sobs_eqb mr obr && sobs_eqb md obd && seq_agree (so_path mr) (so_path md) ops' obs'
+  | _, _ => false
+  end.
+
+(** The property after a history, as a function of what the implementation showed before and after
+    a step ([pre] is the object as observed before the step):
+    - Reverse fails on the empty path; with pointers in range it yields the mirror image of [pre]
+      (so reversing twice restores it, and raw and decoded agree wherever they agreed before);
+    - IncPath inside the path: fails at the last hop and leaves the object alone, else moves to the
+      next hop and to the segment that contains it, nothing else changes;
+    - converting Raw <-> Decoded with pointers in range gives the same path. *)
+Definition inc_oracle (pre : path) (ob : sobs) : bool :=
+  let b := pbase pre in let m := pm b in
+  if num_hops b <=? curr_hf m then true
+  else if curr_hf m + 1 =? num_hops b then (so_code ob =? 2) && path_eqb (so_path ob) pre
+  else
+    let m' := pm (pbase (so_path ob)) in
+    (so_code ob =? 0) && (curr_hf m' =? curr_hf m + 1) &&
+    opt_eqb (seg_at m (curr_hf m + 1)) (Some (curr_inf m')) &&
+    path_eqb (so_path ob) (with_base pre (base_with_ptrs b (curr_inf m') (curr_hf m'))).
+
+Definition step_oracle (pre : path) (o : op) (ob : sobs) : bool :=
+  match o with
+  | ORev =>
+    if num_inf (pbase pre) =? 0 then negb (so_code ob =? 0)
+    else negb (ptrs_in_range pre) || ((so_code ob =? 0) && path_eqb (so_path ob) (spec_reverse pre))
+  | OInc _ => inc_oracle pre ob
+  | OConv =>
+    negb (ptrs_in_range pre) ||
+    ((so_code ob =? 0) && path_eqb (so_path ob) pre && opath_eqb (so_conv ob) (Some pre))
+  | _ => true
+  end.
+
+Fixpoint seq_oracle (r d : path) (ops : list op) (obs : list (sobs * sobs)) : bool :=
+  match ops, obs with
+  | [], [] => true
+  | o :: ops', (obr, obd) :: obs' =>
+    step_oracle r o obr && step_oracle d o obd && seq_oracle (so_path obr) (so_path obd) ops' obs'
+  | _, _ => false
+  end.
+
+(** the observations the model makes along a sequence *)
+Fixpoint seq_model (r d : path) (ops : list op) : list (sobs * sobs) :=
+  match ops with
+  | [] => []
+  | o :: ops' =>
+    let mr := step true r o in
+    let md := step false d o in
+    (mr, md) :: seq_model (so_path mr) (so_path md) ops'
+  end.
+
 Inductive case :=
 (* MetaHdr.DecodeFromBytes on a 32-bit word and SerializeTo of the result:
    impl = [CurrINF; CurrHF; SegLen0; SegLen1; SegLen2; re-encoded word] *)
@@ -455,7 +562,11 @@ Inductive case :=
         (drev drev2 : res path) (rrev rrev2 : res path)
         (drev_raw : option path) (d_raw_d : option path)
 (* Decoded.Reverse (once, twice) on a Decoded whose pointers were set by hand to arbitrary uint8 values *)
-| CRevU8 (p : path) (drev drev2 : res path).
+| CRevU8 (p : path) (drev drev2 : res path)
+(* an operation sequence on one Raw and one Decoded decoded from the same buffer: the two objects as
+   first seen, the operations, and both objects (with result class) after every operation *)
+| CSeq (w datalen : N) (is : list info) (hs : list hop) (raw0 dec0 : path) (ops : list op)
+       (impl : list (sobs * sobs)).
 
 Definition word_obs (w : N) : list N :=
   let m := meta_decode w in
@@ -553,6 +664,13 @@ Definition check (c : case) : N :=
   | CRevU8 p drev drev2 =>
     Check.verdict (res_eqb (reverse_decoded p) drev && res_eqb (twice reverse_decoded p) drev2)
                   (rev_oracle p drev drev2)
+  | CSeq w datalen is hs raw0 dec0 ops impl =>
+    match path_decode w datalen is hs with
+    | Some d =>
+      Check.verdict (path_eqb d raw0 && path_eqb d dec0 && seq_agree d d ops impl)
+                    (path_eqb raw0 dec0 && seq_oracle raw0 dec0 ops impl)
+    | None => Check.verdict false true   (* the runner only sends sequences on decodable buffers *)
+    end
   end.
 
 Definition ptrs_of (r : res path) : list N :=
@@ -590,6 +708,14 @@ Definition diag (c : case) : list N :=
     | Some d => ptrs_of (reverse_decoded d) ++ ptrs_of (reverse_raw d)
     end
   | CRevU8 p _ _ => ptrs_of (reverse_decoded p)
+  | CSeq w datalen is hs _ _ ops _ =>
+    match path_decode w datalen is hs with
+    | Some d =>
+      flat_map (fun ob => [so_code (fst ob); curr_inf (pm (pbase (so_path (fst ob)))); curr_hf (pm (pbase (so_path (fst ob))));
+                           so_code (snd ob); curr_inf (pm (pbase (so_path (snd ob)))); curr_hf (pm (pbase (so_path (snd ob))))])
+               (seq_model d d ops)
+    | None => [0]
+    end
   end.
 
 End Meta.
